@@ -235,13 +235,19 @@ Definition drain_probe (l : listener) (o : lop) : N :=
   | OpShutdown u => match l_at_drain u l with Some l' => connect_code (l_connect l') | None => 9%N end
   | _ => 9%N
   end.
+(* stopAccept only sets an accept deadline: the accept loop may take ONE last connection that arrives before it notices
+   (it is then served by the old process, which the property allows); so while Upgrading an observed "accepted" agrees with
+   a modelled "backlog".  The graceful-stop branch closes the socket first and gets no such allowance. *)
+Definition probe_agrees (o : lop) (expected observed : N) : bool :=
+  orb (N.eqb expected observed)
+      (match o with OpShutdown true => andb (N.eqb expected 1) (N.eqb observed 2) | _ => false end).
 Definition lis_case := (bool * list (lop * bool * nat * N))%type.
 Fixpoint lis_run_ok (l : listener) (tr : list (lop * bool * nat * N)) : bool :=
   match tr with
   | [] => true
   | (o, acc, dr, pr) :: tr' =>
       let l' := l_step l o in
-      andb (andb (andb (Bool.eqb (l_accepts l') acc) (Nat.eqb (l_drains l') dr)) (N.eqb (drain_probe l o) pr)) (lis_run_ok l' tr')
+      andb (andb (andb (Bool.eqb (l_accepts l') acc) (Nat.eqb (l_drains l') dr)) (probe_agrees o (drain_probe l o) pr)) (lis_run_ok l' tr')
   end.
 Definition lis_case_ok (k : lis_case) : bool := match k with (b, tr) => lis_run_ok (l_init b false) tr end.
 Definition lis_mismatches (l : list lis_case) : list nat := mismatches_from lis_case_ok 0 l.
